@@ -255,6 +255,23 @@ func checkErrorsNotSwallowed(p *core.Program, r *core.Report, fn *ssa.Function, 
 			if tolerated[shortName(name)] {
 				continue
 			}
+			// the failure was recognised as a sentinel the function deliberately accepts (err == io.EOF ...)
+			sentinel := false
+			for _, c2 := range pr.State.Taken {
+				b, isB := c2.V.(*ssa.BinOp)
+				if !isB || (b.Op != token.EQL && b.Op != token.NEQ) {
+					continue
+				}
+				eq := (b.Op == token.EQL) == c2.True
+				for _, pair := range [][2]ssa.Value{{b.X, b.Y}, {b.Y, b.X}} {
+					if pr.State.Resolve(pair[0]) == x && !core.IsNilConst(pair[1]) && eq {
+						sentinel = true
+					}
+				}
+			}
+			if sentinel {
+				continue
+			}
 			// the most recent test of this value on the path must be the failing one (loops re-test)
 			d := p.Pos(call.Pos()) + " (" + shortName(name) + ")"
 			if !seen[d] {
@@ -264,4 +281,30 @@ func checkErrorsNotSwallowed(p *core.Program, r *core.Report, fn *ssa.Function, 
 		}
 	}
 	r.Check(len(bad) == 0, key, rule, p.Pos(fn.Pos()), "", "nil is returned although the call at "+strings.Join(bad, ", ")+" failed on that path: the caller takes a partial result for a success")
+}
+
+// checkErrorsNotSwallowedIn applies checkErrorsNotSwallowed to every top-level function with an error result in the
+// named packages (relative paths); returns the number of functions examined.
+func checkErrorsNotSwallowedIn(p *core.Program, r *core.Report, pkgs ...string) int {
+	return checkErrorsNotSwallowedTol(p, r, nil, pkgs...)
+}
+
+func checkErrorsNotSwallowedTol(p *core.Program, r *core.Report, tolerated map[string]bool, pkgs ...string) int {
+	want := map[*ssa.Package]bool{}
+	for _, rel := range pkgs {
+		want[p.Pkg(rel)] = true
+	}
+	n := 0
+	for _, fn := range p.RepoFuncs() {
+		if fn.Pkg == nil || fn.Parent() != nil || !want[fn.Pkg] {
+			continue
+		}
+		res := fn.Signature.Results()
+		if res.Len() == 0 || !isErrorType(res.At(res.Len()-1).Type()) {
+			continue
+		}
+		n++
+		checkErrorsNotSwallowed(p, r, fn, "", tolerated)
+	}
+	return n
 }
